@@ -1303,6 +1303,68 @@ fn attribute_acceptances(rec: &RunRecord, prop: &'static str, prefix: &str) -> V
     v
 }
 
+/// C03, progress bookkeeping: responses that must be ignored (duplicates, replays, foreign,
+/// never-sent, unrelated) do not postpone the end of a round.  The loop evaluates the
+/// completion condition once per iteration, after its receive phase; the condition is
+/// monotone in time while no genuine response arrives.  If it already held - computed from
+/// the genuine accepted responses only - when the last receive call of an iteration was
+/// ENTERED (a lower bound of the evaluation instant), the round had to be published in that
+/// iteration.  A later publication with an ignorable response handed over in between is
+/// reported.  ICMP and UDP only (one readiness poll per iteration marks the iterations).
+fn ignored_response_delays_round(rec: &RunRecord) -> Vec<Violation> {
+    let mut v = Vec::new();
+    let t = &rec.sc.tracer;
+    if t.proto == Proto::Tcp || rec.sc.faults.stall_pm > 0 || rec.clock_log.is_empty() {
+        return v;
+    }
+    let calls = &rec.world.calls;
+    for (k, round) in rec.rounds.iter().enumerate() {
+        let c0 = if k == 0 { 0 } else { rec.rounds[k - 1].calls_end as usize };
+        let c1 = (round.calls_end as usize).min(calls.len());
+        let start_idx = if k == 0 { 0 } else { rec.rounds[k - 1].reads_cb };
+        let Some(start) = read_at(rec, start_idx) else { continue };
+        let accepted = accepted_in_round(rec, k);
+        let polls: Vec<usize> = (c0..c1).filter(|j| calls[*j].site == Site::IsReadable).collect();
+        for (n, j) in polls.iter().enumerate() {
+            let Some(next_poll) = polls.get(n + 1) else { break };
+            // last call of this iteration's receive phase (`call_idx` of a hand-over is
+            // 1-based: the response handed over in call `last` has call_idx `last + 1` and, being
+            // received after `now_lower`, keeps the condition false when it is genuine)
+            let last = if calls.get(j + 1).is_some_and(|c| matches!(c.site, Site::Read | Site::RecvFrom)) && j + 1 < *next_poll { j + 1 } else { *j };
+            let now_lower = calls[last].t_enter;
+            let before: Vec<&(&WireRec, &RespRec)> = accepted.iter().filter(|(_, r)| r.handed.is_some_and(|h| (h.call_idx as usize) <= last + 1)).collect();
+            let found = before.iter().any(|(_, r)| is_target_response(r, t.target));
+            let last_recv = before.iter().filter_map(|(_, r)| r.handed.and_then(|h| read_at(rec, h.reads_at_exit))).max();
+            let Some(last_recv) = last_recv else { continue };
+            let held = found && now_lower.saturating_sub(start) > t.min_round_ns && now_lower > last_recv && now_lower - last_recv > t.grace_ns;
+            if !held {
+                continue;
+            }
+            // the round went on: which ignorable datagram was handed over after this point?
+            let culprit = rec.world.resps.iter().find(|r| {
+                !matches!(r.class, RespClass::Genuine) && r.handed.is_some_and(|h| h.round_idx as usize == k && (h.call_idx as usize) > last + 1)
+            });
+            if let Some(r) = culprit {
+                v.push(Violation::new(
+                    "C03",
+                    format!("c03.ignored-response-delayed-round.{:?}", r.class),
+                    format!(
+                        "round {k}: the target had answered, min-round and grace ({} ns) had passed since the last genuine response by call {} (t+{} ns), yet the round went on; a {:?} datagram ({}) was handed over at call {}",
+                        t.grace_ns,
+                        last + 1,
+                        now_lower.saturating_sub(start),
+                        r.class,
+                        r.note,
+                        r.handed.map_or(0, |h| h.call_idx)
+                    ),
+                ));
+            }
+            break;
+        }
+    }
+    v
+}
+
 /// C03: only genuine current-round responses can complete a probe.
 #[must_use]
 pub fn c03(rec: &RunRecord) -> Vec<Violation> {
@@ -1315,6 +1377,7 @@ pub fn c03(rec: &RunRecord) -> Vec<Violation> {
     }
     let mut v = relabel(c01(rec), "C03", "c01.", "c03.");
     v.extend(bookkeeping(rec, "C03", "c03"));
+    v.extend(ignored_response_delays_round(rec));
     v.extend(
         relabel(c06(rec), "C03", "c06.", "c03.send.")
             .into_iter()
